@@ -52,7 +52,7 @@ package plot
 //@   requires [series-well-formed] forall l string :: has(ls.series, l) ==> ls.series[l] != nil && ls.series[l].data != nil
 //@   requires [timestamps-follow-sequence-order] (ls.seq > 0 ==> r.Timestamp >= ls.began) && (forall s int :: has(ls.buf, s) ==> ls.buf[s].t >= (ls.seq > 0 ? ls.began : (r.Seq == 0 ? r.Timestamp : ls.buf[s].t)))
 //@   assume   [fewer-than-2^62-results] ls.seq < 4611686018427387904 && len(ls.buf) < 4611686018427387904
-//@   modifies ls.buf[*], ls.series[*], ls.seq, ls.began, any(plot.timeSeries), any(tsz.Series)
+//@   modifies ls.buf[*], ls.series[*], ls.seq, ls.began, any(plot.timeSeries), any(tsz.Series), ghost(pushed, all), ghost(lastT, all), ghost(lastV, all), ghost(ists, all), ghost(towner, all)
 //@   ghost released int
 //@   at call Sub x*: assume [attack-shorter-than-292-years] MinInt64 <= arg0 - arg1 && arg0 - arg1 <= MaxInt64
 //@   before call add: assert [released-in-sequence-order] p.seq == ls.seq && ls.seq == old(ls.seq) + released ;
@@ -165,7 +165,8 @@ package plot
 //@   requires [non-nil] p != nil && r != nil
 //@   requires [series-invariant] TSINV()
 //@   ensures [series-invariant] TSINV() && (forall l string :: has(p.series[r.Attack].series, l) ==> p.series[r.Attack].series[l] != nil && ists(p.series[r.Attack].series[l])) && (forall t *plot.timeSeries :: old(ists(t)) ==> ists(t))
-//@   modifies p.series[*], p.series[r.Attack].buf[*], p.series[r.Attack].series[*], any(plot.labeledSeries), any(plot.timeSeries), any(tsz.Series)
+//@   modifies p.series[*], p.series[r.Attack].buf[*], p.series[r.Attack].series[*], any(plot.labeledSeries), any(plot.timeSeries), any(tsz.Series),
+//@            ghost(pushed, all), ghost(lastT, all), ghost(lastV, all), ghost(ists, all), ghost(towner, all)
 //@   ensures [dispatched-by-attack-name] has(p.series, r.Attack) && p.series[r.Attack] != nil
 //@   ensures [other-attacks-keep-their-series] forall a string :: a != r.Attack ==> has(p.series, a) == old(has(p.series, a)) && p.series[a] == old(p.series[a])
 
